@@ -242,6 +242,15 @@ func init() {
 					"ambigimp/types.go": "package ambigimp\n\ntype S struct{ A string }\ntype D struct {\n\tA    string\n\tSafe string\n}\n",
 				}})
 			*nBases++
+			// a :literal that mentions a package of the module itself which the setup file does not import: goimports
+			// resolves it with the go command, run in the working directory of the process
+			bases = append(bases, GCase{Name: "localimp", Setup: "localimp/setup.go", Profile: "simple", Features: []string{"unimported-module-local-package-in-literal"},
+				Files: map[string]string{
+					"localimp/setup.go":       "//go:build convergen\n\npackage localimp\n\ntype Convergen interface {\n\t// :literal Created clock.Stamp()\n\tConv(*S) *D\n}\n",
+					"localimp/types.go":       "package localimp\n\ntype S struct{ A string }\ntype D struct {\n\tA       string\n\tCreated string\n}\n",
+					"localimp/clock/clock.go": "package clock\n\nfunc Stamp() string { return \"now\" }\n",
+				}})
+			*nBases++
 			// a blank import whose last path element clashes with the declared name of an unnamed import (go-foo declares
 			// foo): which of the two paths a notation's "foo." means must not depend on a map's iteration order
 			bases = append(bases, GCase{Name: "lateclash", Setup: "lateclash/setup.go", Profile: "simple", Features: []string{"blank-import-of-a-same-named-package"},
@@ -624,6 +633,11 @@ func init() {
 						// the runs agree on everything but the path of an import that the setup file does not have:
 						// goimports resolved a package name that several packages share
 						key = "C13|runs-differ|unimported-package-resolved-by-goimports"
+						if (o.Scenario.Cwd == "..") != (first.Scenario.Cwd == "..") && strings.Contains(*first.Output+*o.Output, "\"exp/") &&
+							!strings.Contains(files[setup], "template.") {
+							// one of the two runs was started outside the module and the import that differs is a package of the module
+							key = "C13|runs-differ|module-local-package-resolved-from-cwd"
+						}
 					}
 					sum.Judgements = append(sum.Judgements, Judgement{Property: "C13", Case: base, Key: key,
 						What: fmt.Sprintf("two runs of %s differ (%v vs %v)", base, first.Scenario.Argv, o.Scenario.Argv), Replay: rp})
